@@ -51,14 +51,33 @@ THOROUGH = QUICK + [
 ]
 BOUNDS = dict(quick='shapes %s; windows as index masks and as dates (on / between grid points); T<=4' % [c[0] for c in QUICK],
               thorough='shapes %s' % [c[0] for c in THOROUGH])
-OUTSIDE = ['fixing to the x of an SLP (longer vector)', 'split problems with a fixed window']
+OUTSIDE = ['fixing to the x of an SLP (longer vector)']
 ASSUMPTIONS = ['x_prev is feasible for the original problem (what the optimiser returns, C03)',
                'a date window contains the steps whose grid point is <= the date (docstring: "all dates before date taken")']
 
 
+# split set-up with a fixed window (the window and the values refer to the whole horizon) and re-use of one dictionary object
+EXTRA = [
+    ('split_two_node_mask', 'two_node', dict(T=4), ('mask', [1, 1, 1, 0]), dict(split='2h')),
+    ('split_contract_storage_date', 'contract_storage', dict(T=4, storage_kw=dict(start_eq_end=True)), ('date', 2, 30), dict(split='2h')),
+    ('split_orderbook_last_mask', 'orderbook', dict(T=4, ob_last=True, orders=((0, 1, 2.0), (2, 4, -1.5), (3, 4, 1.0))), ('mask', [0, 1, 1, 0]), dict(split='2h')),
+    ('zone_aware_grid_date', 'two_node', dict(T=4, gridv='hour_cet_dst'), ('date', 2, 0), {}),
+    ('zone_aware_grid_naive_date', 'two_node', dict(T=4, gridv='hour_cet_dst'), ('date_naive', 2, 0), {}),
+    ('same_dictionary_after_shorter_grid_date', 'two_node', dict(T=3), ('date', 1, 0), dict(reuse=True)),
+    ('same_dictionary_after_shorter_grid_date_storage', 'contract_storage', dict(T=3), ('date', 0, 30), dict(reuse=True)),
+]
+EXTRA_THOROUGH = [
+    ('split_unequal_intervals_date', 'two_node', dict(T=5, freq='6h', unit='h'), ('date', 2, 0), dict(split='d')),
+    ('split_plant_mask', 'plant', dict(T=4, fuel=True, mr=2), ('mask', [1, 1, 1, 0]), dict(split='2h')),
+]
+
+
 def cases(tier, seed):
     lst = THOROUGH if tier == 'thorough' else QUICK
-    return [(cid, dict(shape=SHAPE_OF[cid], kw=dict(kw), win=list(win))) for cid, kw, win in lst]
+    out = [(cid, dict(shape=SHAPE_OF[cid], kw=dict(kw), win=list(win))) for cid, kw, win in lst]
+    for cid, shape, kw, win, opt in EXTRA + (EXTRA_THOROUGH if tier == 'thorough' else []):
+        out.append((cid, dict(shape=shape, kw=dict(kw), win=list(win), **opt)))
+    return out
 
 
 def window_arg(tg, win):
@@ -69,14 +88,47 @@ def window_arg(tg, win):
     k, minutes = win[1], win[2]
     d = (tg.timepoints[k] + pd.Timedelta(minutes=minutes))
     steps = {t for t in range(tg.T) if tg.timepoints[t] <= d}
+    if win[0] == 'date_naive':
+        # wall-clock date without zone on a zone-aware grid (as accepted for the windows of assets)
+        return d.tz_localize(None).to_pydatetime(), steps
     return d.to_pydatetime(), steps
 
 
-def scenario(D, shape, kw, win, env=None):
+class _Cat:
+    """the interval problems of a split set-up seen as one problem: vectors concatenated, rows block-diagonal, the global mapping"""
+
+    def __init__(self, sop):
+        ops = sop.ops
+        self.c = np.concatenate([np.asarray(o.c, dtype=object).reshape(-1) for o in ops])
+        self.l = np.concatenate([np.asarray(o.l, dtype=object).reshape(-1) for o in ops])
+        self.u = np.concatenate([np.asarray(o.u, dtype=object).reshape(-1) for o in ops])
+        n = len(self.c)
+        blocks, off = [], 0
+        for o in ops:
+            A = to_dense(o.A)
+            k = len(o.c)
+            if A is not None and A.shape[0]:
+                B = np.zeros((A.shape[0], n), dtype=object)
+                B[:, off:off + k] = A
+                blocks.append(B)
+            off += k
+        self.A = np.vstack(blocks) if blocks else None
+        self.b = np.concatenate([np.asarray(o.b, dtype=object).reshape(-1) for o in ops if o.b is not None and len(o.b)]) if blocks else None
+        self.cType = ''.join(o.cType or '' for o in ops)
+        self.mapping = sop.mapping
+        self.map_nodal_restr = None
+
+
+def scenario(D, shape, kw, win, env=None, split=None, reuse=False):
     eao = lift.import_eao()
     sh = shapes.build_portfolio(D, shape, **kw)
     tg = sh.tg
-    op0 = sh.portf.setup_optim_problem(sh.prices, tg)
+
+    def setup(prices, **fw):
+        if split is None:
+            return sh.portf.setup_optim_problem(prices, tg, **fw)
+        return _Cat(sh.portf.setup_split_optim_problem(pd.DataFrame(prices), tg, interval_size=split, **fw))
+    op0 = setup(sh.prices)
     n = len(op0.c)
     xprev = common.sym_x(n, 'x') if D.symbolic else common.concrete_x(env, n, 'x')
     newp = {}
@@ -86,18 +138,26 @@ def scenario(D, shape, kw, win, env=None):
         else:
             newp[k] = D.arr('new_' + k, len(v))
     arg, steps = window_arg(tg, win)
-    op_same = sh.portf.setup_optim_problem(sh.prices, tg, fix_time_window={'I': arg.copy() if hasattr(arg, 'copy') else arg, 'x': xprev.copy()})
-    arg, steps = window_arg(tg, win)
-    op_new = sh.portf.setup_optim_problem(newp, tg, fix_time_window={'I': arg.copy() if hasattr(arg, 'copy') else arg, 'x': xprev.copy()})
-    op_fresh_new = sh.portf.setup_optim_problem(newp, tg)
+    if reuse:
+        # ONE dictionary object for all calls, used on a shorter grid first: the user's dictionary must still mean the same afterwards
+        d = {'I': arg, 'x': xprev}
+        tg_short = eao.assets.Timegrid(tg.start, tg.timepoints[tg.T - 1], freq=tg.freq, main_time_unit=tg.main_time_unit, timezone=tg.tz)
+        sh.portf.setup_optim_problem({k: v[:tg_short.T] for k, v in sh.prices.items()}, tg_short, fix_time_window=d)
+        op_same = setup(sh.prices, fix_time_window=d)
+        op_new = setup(newp, fix_time_window=d)
+    else:
+        op_same = setup(sh.prices, fix_time_window={'I': arg.copy() if hasattr(arg, 'copy') else arg, 'x': xprev.copy()})
+        arg, steps = window_arg(tg, win)
+        op_new = setup(newp, fix_time_window={'I': arg.copy() if hasattr(arg, 'copy') else arg, 'x': xprev.copy()})
+    op_fresh_new = setup(newp)
     return sh, op0, xprev, op_same, op_new, op_fresh_new, steps
 
 
-def run_case(case_id, tier, seed, shape, kw, win):
+def run_case(case_id, tier, seed, shape, kw, win, split=None, reuse=False):
     rec = lpsem.Rec(PROP, case_id)
 
     def build(D):
-        return scenario(D, shape, kw, win)
+        return scenario(D, shape, kw, win, split=split, reuse=reuse)
     res = lift.explore_build(build, level='A')
     rec.paths = len(res)
     validated = False
@@ -169,7 +229,7 @@ def run_case(case_id, tier, seed, shape, kw, win):
 def observe(case, kwargs, env, rq):
     from .. import obs
     D = lift.Domain(theta=env)
-    sh, op0, xprev, op_same, op_new, op_fresh_new, steps = scenario(D, kwargs['shape'], kwargs['kw'], kwargs['win'], env=env)
+    sh, op0, xprev, op_same, op_new, op_fresh_new, steps = scenario(D, kwargs['shape'], kwargs['kw'], kwargs['win'], env=env, split=kwargs.get('split'), reuse=kwargs.get('reuse', False))
     o = dict(same=obs.problem_obs(op_same), new=obs.problem_obs(op_new))
     if rq.get('kind') == 'replay':
         o['orig'] = obs.problem_obs(op0)
